@@ -45,6 +45,22 @@ Decided (necessary conditions, visible in the shape of the code):
       merged mapping is a literal overlay (``{**a, **b}`` / ``a | b``) its last operand is the incoming side.
       A filter whose value is not a literal, or a merge in which no read of the incoming fields is found, is an analysis error.
 
+* R5  the state installed by ``clear()`` is an instance created by that very call.  ``clear`` hands the result of the shared
+      ``create_cleared_state`` to ``set_state``; ``merge_state`` returns a same-type incoming object by identity, so in
+      InMemoryStateStore that object BECOMES the live state which ``set`` / ``edit_state`` then mutate in place (R3 classifies both as
+      `in place on self._state`).  Decided, by an
+      origin analysis of every returned / written value (flow-insensitive over locals, through repo functions and the store's own
+      methods with the arguments bound): (a) ``create_cleared_state`` runs its body on every call — no memoising decorator
+      (``functools.lru_cache`` / ``cache`` / anything resolving to a cache/memo wrapper) and no memoising re-binding of its name;
+      (b) every value it returns is created during the call (a call of the state-class argument, a constructor, a deep copy), not
+      read from something that outlives the call: module-level name or container, ``global``, attribute of the class / of another
+      long-lived object, mutable default argument, result of a memoised function, nor a SHALLOW copy of any of these (nested mutable
+      defaults stay shared); (c) for each store whose ``clear`` ends in an assignment to a field (the object is kept: InMemoryStateStore),
+      every value that can reach that assignment from ``clear`` through ``set_state`` / ``merge_state`` is such a fresh object (not
+      another field of the store either).  A store that serialises the cleared state (SqliteStateStore: INSERT/UPDATE) keeps no
+      reference; it is only counted.  If the condition is broken, values written after one clear() survive the next clear() and all
+      stores cleared with the same state type share one state object.  A decorator / re-binding the rule cannot read is an analysis error.
+
 Not decided: equality of values with a nested-dict model over operation sequences (reduced to "both
 stores call the same helpers with the same argument roles"), JSON round-trip fidelity of values, nested
 (below top level) aliasing of snapshots, anything about stores other than the two anchored ones.
@@ -59,7 +75,7 @@ import ast
 from ..astx import atoms, call_name, calls, dep_slice, dotted, enclosing_stmt, expand, last
 from ..cfg import CFG
 from ..index import AnchorError, FuncNode, Module, Repo, parent, walk_shallow
-from ..selftest import Twin
+from ..selftest import Twin, multi
 
 EXPLANATION = (
     "Static sibling-agreement and aliasing rules over workflows/context/state_store.py (InMemoryStateStore, helpers, DictState), "
@@ -79,7 +95,13 @@ EXPLANATION = (
     "(model_dump/dict/model_dump_json/json) whose result flows into the returned constructor call (dependence slice through locals plus in-place fills) are classified as incoming-side or current-side "
     "by the parameter they depend on, and none may carry a field filter (exclude_unset/exclude_defaults/exclude_none/include/exclude/skip_defaults other than a literal False/None/empty collection): "
     "dropped incoming fields keep their old stored value, dropped current fields are reset to defaults. model_fields_set flowing into the merged value is reported alike; by_alias must agree on both sides; "
-    "a literal overlay ({**a, **b} / a | b) must end with the incoming side. Planted filtered/swapped merges in fixtures/c19/planted_merge.py must be reported on every run. NOT decided: value equality with a nested-dict model over arbitrary sequences, "
+    "a literal overlay ({**a, **b} / a | b) must end with the incoming side. Planted filtered/swapped merges in fixtures/c19/planted_merge.py must be reported on every run. "
+    "R5: the state clear() installs is created by that call: create_cleared_state has no memoising decorator / re-binding (functools.lru_cache, cache, any cache/memo wrapper resolved through imports) and every value it returns "
+    "originates in the call (constructor call of the state-class argument, deep copy), never in a module-level name/container, a global, an attribute of the class, a mutable default argument, a memoised function, or a shallow copy of one; "
+    "in InMemoryStateStore (which keeps the object: clear -> set_state -> merge_state returns the incoming object by identity -> self._state, then set/edit_state mutate it in place) every value reaching the field from clear() is such a fresh object. "
+    "Otherwise writes made after one clear() survive the next and stores of one state type alias each other. SqliteStateStore serialises the cleared state and is only counted. "
+    "Planted memoised/singleton/default-argument helpers in fixtures/c19/planted_clear.py must be reported on every run. "
+    "NOT decided: value equality with a nested-dict model over arbitrary sequences, "
     "JSON round-trip fidelity, aliasing below the top level, other store implementations."
 )
 TRUSTED = [
@@ -87,11 +109,12 @@ TRUSTED = [
     "pydantic BaseModel.model_copy(): shallow copy of __dict__, private attribute values shared; deep=True copies recursively",
     "serializer.deserialize / class constructors return new objects",
     "pydantic model_dump()/dict() without include/exclude/exclude_* arguments emit every field of the model",
+    "functools.lru_cache / functools.cache return the stored result object for equal arguments; calling a class / an external factory returns a new object; deepcopy / model_copy(deep=True) share nothing",
 ]
 LEVEL_TEXT = "static necessary-condition rules (sibling agreement T5, aliasing T11); no repo code executed"
 LEVEL_NOTE = "A pass means the decided clauses hold, not that both stores equal a nested-dict model for every operation sequence."
 TECHNIQUE = ("AST sibling comparison, import-resolved helper binding, return-value origin analysis through self-calls and repo functions, "
-             "CFG must-pass (every normal path executes the write) for the mutators")
+             "CFG must-pass (every normal path executes the write) for the mutators, per-call freshness (escape) analysis of the value clear() installs")
 
 MEM = "workflows.context.state_store"
 SQL = "llama_agents.server._store.sqlite.sqlite_state_store"
@@ -1029,6 +1052,393 @@ def _r4(chk, repo: Repo) -> None:
     chk.floor("C19.R4", "clean merges of fixtures/c19/planted_merge.py accepted", clean, 2)
 
 
+# ----------------------------------------------------------------------------------------------- R5: clear() installs a fresh instance
+
+MEMOISERS = {"functools.lru_cache", "functools.cache", "functools.cached_property", "cachetools.cached", "cachetools.cachedmethod", "async_lru.alru_cache"}
+TRANSPARENT_DECORATORS = {"staticmethod", "classmethod", "typing.no_type_check", "typing_extensions.override", "typing.override"}
+CONTAINER_READS = {"get", "setdefault", "pop", "__getitem__"}
+R5_FIXTURE = R4_FIXTURE.parent / "planted_clear.py"
+
+
+def _memoiser(repo: Repo, m: Module, e: ast.AST) -> str | None:
+    """The memoising wrapper a decorator expression / wrapping callee denotes (`lru_cache`, `lru_cache(maxsize=None)`,
+    `functools.cache`), resolved through the import table; None when it is not one."""
+    x = e
+    while isinstance(x, ast.Call):
+        x = x.func
+    nm = dotted(x)
+    if not nm:
+        return None
+    full = repo.resolve_dotted(m, nm)
+    tail = full.replace(":", ".").rsplit(".", 1)[-1].lower()
+    if full in MEMOISERS or "cache" in tail or "memo" in tail:
+        return full
+    return None
+
+
+def _param_defaults(fn: ast.AST) -> dict[str, ast.AST]:
+    a = fn.args
+    pos = a.posonlyargs + a.args
+    out = {p.arg: d for p, d in zip(pos[len(pos) - len(a.defaults):], a.defaults)} if a.defaults else {}
+    out.update({p.arg: d for p, d in zip(a.kwonlyargs, a.kw_defaults) if d is not None})
+    return out
+
+
+def _all_params(fn: ast.AST) -> list[str]:
+    a = fn.args
+    return [x.arg for x in a.posonlyargs + a.args + a.kwonlyargs]
+
+
+def _module_bindings(m: Module, name: str) -> list[ast.AST]:
+    """Values bound to `name` by assignments at module level (outside every def / class) of m."""
+    out: list[ast.AST] = []
+    for n in walk_shallow(m.tree):
+        if isinstance(n, ast.Assign) and any(isinstance(t, ast.Name) and t.id == name for t in n.targets):
+            out.append(n.value)
+        elif isinstance(n, ast.AnnAssign) and isinstance(n.target, ast.Name) and n.target.id == name and n.value is not None:
+            out.append(n.value)
+    return out
+
+
+def _local_values(fn: ast.AST, name: str) -> list[ast.AST] | None:
+    """Every value the local `name` is bound to in fn (flow-insensitive); [] when fn never binds it; None when it is bound by
+    something the rule cannot read (unpacking, loop, with, augmented assignment).  `name[k] = v` / `name.a = v` fill the object
+    in place and do not re-bind the name."""
+    vals: list[ast.AST] = []
+    for n in walk_shallow(fn):
+        tg: list[ast.AST] = []
+        if isinstance(n, ast.Assign):
+            for t in n.targets:
+                if isinstance(t, ast.Name) and t.id == name:
+                    vals.append(n.value)
+                elif isinstance(t, (ast.Tuple, ast.List, ast.Starred)):
+                    tg.append(t)
+        elif isinstance(n, ast.AnnAssign) and isinstance(n.target, ast.Name) and n.target.id == name and n.value is not None:
+            vals.append(n.value)
+        elif isinstance(n, ast.NamedExpr) and n.target.id == name:
+            vals.append(n.value)
+        elif isinstance(n, (ast.For, ast.AsyncFor, ast.AugAssign)):
+            tg = [n.target]
+        elif isinstance(n, (ast.With, ast.AsyncWith)):
+            tg = [i.optional_vars for i in n.items if i.optional_vars is not None]
+        elif isinstance(n, ast.comprehension):
+            continue
+        elif isinstance(n, ast.ExceptHandler) and n.name == name:
+            return None
+        if any(isinstance(x, ast.Name) and x.id == name and isinstance(x.ctx, ast.Store) for t in tg for x in ast.walk(t)):
+            return None
+    return vals
+
+
+class _Fresh:
+    """Where does the object an expression evaluates to come from, with respect to ONE call of the enclosing function?
+    Tags: ('fresh',) created during this call; ('shared', why) an object that outlives the call (module-level name, container
+    read, attribute of a longer-lived object, default argument, result of a memoised function); ('field', attr) held in a
+    field of the store; ('shallow', tag) shallow copy; ('arg', name) the caller's argument; ('unknown', text)."""
+
+    def __init__(self, repo: Repo, st: _Cls | None = None):
+        self.repo = repo
+        self.st = st
+
+    # -- memoisation of a function: decorators, and re-binding of its name at module level
+    def wrapped(self, m: Module, fn: ast.AST) -> tuple[list[tuple[str, ast.AST]], list[str]]:
+        """([(memoiser, node)], [decorators / rebindings the rule cannot read])"""
+        memo, opaque = [], []
+        for d in fn.decorator_list:
+            mm = _memoiser(self.repo, m, d)
+            nm = dotted(d.func if isinstance(d, ast.Call) else d)
+            if mm:
+                memo.append((f"`@{ast.unparse(d)}`", d))
+            elif nm and (self.repo.resolve_dotted(m, nm) in TRANSPARENT_DECORATORS or nm in TRANSPARENT_DECORATORS):
+                continue
+            else:
+                opaque.append(f"decorator `@{ast.unparse(d)[:50]}` of {fn.name}")
+        if isinstance(parent(fn), ast.Module):
+            for v in _module_bindings(m, fn.name):
+                if isinstance(v, ast.Call) and _memoiser(self.repo, m, v.func):
+                    memo.append((f"`{fn.name} = {ast.unparse(v)[:60]}`", v))
+                else:
+                    opaque.append(f"module-level re-binding `{fn.name} = {ast.unparse(v)[:50]}`")
+        return memo, opaque
+
+    def _outlives(self, tags: set[tuple], text: str) -> set[tuple]:
+        """An object read out of another one (attribute / item / container read): part of a fresh object is fresh, anything
+        read out of an object that outlives the call outlives it too."""
+        if all(t == ("fresh",) for t in tags):
+            return {("fresh",)}
+        unk = {t for t in tags if t[0] == "unknown"}
+        return unk or {("shared", text)}
+
+    def value(self, m: Module, fn: ast.AST, e: ast.AST, env: dict[str, set], depth: int = 0) -> set[tuple]:
+        if depth > 7:
+            return {("unknown", "depth")}
+        if isinstance(e, ast.Await):
+            return self.value(m, fn, e.value, env, depth)
+        if isinstance(e, (ast.Constant, ast.Dict, ast.List, ast.Set, ast.Tuple, ast.DictComp, ast.ListComp, ast.SetComp, ast.JoinedStr)):
+            return {("fresh",)}
+        if isinstance(e, ast.IfExp):
+            return self.value(m, fn, e.body, env, depth) | self.value(m, fn, e.orelse, env, depth)
+        if isinstance(e, ast.BoolOp):
+            out: set[tuple] = set()
+            for v in e.values:
+                out |= self.value(m, fn, v, env, depth)
+            return out
+        if isinstance(e, ast.NamedExpr):
+            return self.value(m, fn, e.value, env, depth)
+        if isinstance(e, ast.Name):
+            return self._name(m, fn, e, env, depth)
+        if isinstance(e, ast.Attribute):
+            if _is_self_attr(e) and self.st is not None:
+                return {("field", e.attr)}
+            return self._outlives(self.value(m, fn, e.value, env, depth + 1), f"`{ast.unparse(e)[:50]}` is an attribute of an object that outlives the call ({m.rel}:{e.lineno})")
+        if isinstance(e, ast.Subscript):
+            return self._outlives(self.value(m, fn, e.value, env, depth + 1), f"`{ast.unparse(e)[:50]}` is read out of a container that outlives the call ({m.rel}:{e.lineno})")
+        if isinstance(e, ast.Call):
+            return self._call(m, fn, e, env, depth)
+        return {("unknown", type(e).__name__)}
+
+    def _name(self, m: Module, fn: ast.AST, e: ast.Name, env: dict[str, set], depth: int) -> set[tuple]:
+        if any(isinstance(n, (ast.Global, ast.Nonlocal)) and e.id in n.names for n in walk_shallow(fn)):
+            return {("shared", f"`{e.id}` is a global of {m.rel}, bound across calls")}
+        vals = _local_values(fn, e.id)
+        if vals is None:
+            return {("unknown", f"name {e.id} is bound by a loop / with / augmented assignment")}
+        out: set[tuple] = set()
+        for v in vals:
+            out |= self.value(m, fn, v, env, depth + 1)
+        if e.id in _all_params(fn):
+            if e.id in env:
+                out |= env[e.id]
+            elif e.id in _param_defaults(fn):
+                d = _param_defaults(fn)[e.id]
+                out |= {("fresh",)} if isinstance(d, ast.Constant) else \
+                    {("shared", f"parameter `{e.id}` of {fn.name} defaults to `{ast.unparse(d)[:40]}`, evaluated once when the function is defined and shared by every call ({m.rel}:{d.lineno})")}
+            else:
+                out |= {("arg", e.id)}
+            return out
+        if vals:
+            return out
+        if _module_bindings(m, e.id) or e.id in m.functions or e.id in m.classes or e.id in m.imports:
+            ln = next((getattr(v, "lineno", 0) for v in _module_bindings(m, e.id)), 0)
+            return {("shared", f"`{e.id}` is a module-level object of {m.rel}{':' + str(ln) if ln else ''}, created once at import and shared by every call")}
+        return {("unknown", f"name {e.id}")}
+
+    def _shallow(self, tags: set[tuple]) -> set[tuple]:
+        return {t if t == ("fresh",) or t[0] == "unknown" else ("shallow", t) for t in tags}
+
+    def _call(self, m: Module, fn: ast.AST, c: ast.Call, env: dict[str, set], depth: int) -> set[tuple]:
+        f = c.func
+        nm = call_name(c)
+        if nm in ("cast", "typing.cast") and len(c.args) == 2:
+            return self.value(m, fn, c.args[1], env, depth)
+        if nm == "getattr" and len(c.args) >= 2:
+            out = self._outlives(self.value(m, fn, c.args[0], env, depth + 1), f"`{ast.unparse(c)[:50]}` reads an attribute of an object that outlives the call ({m.rel}:{c.lineno})")
+            for d in c.args[2:]:
+                out |= self.value(m, fn, d, env, depth + 1)
+            return out
+        if isinstance(f, ast.Attribute) and f.attr == "model_copy":
+            deep = next((k.value for k in c.keywords if k.arg == "deep"), None)
+            if isinstance(deep, ast.Constant) and deep.value is True:
+                return {("fresh",)}
+            if deep is not None and not (isinstance(deep, ast.Constant) and deep.value is False):
+                return {("unknown", "model_copy(deep=<expr>)")}
+            return self._shallow(self.value(m, fn, f.value, env, depth + 1))
+        if last(nm) in DEEP_FUNCS and c.args:
+            return {("fresh",)}
+        if nm in ("copy", "copy.copy") and len(c.args) == 1:
+            return self._shallow(self.value(m, fn, c.args[0], env, depth + 1))
+        if isinstance(f, ast.Attribute) and f.attr == "copy" and not c.args:
+            return self._shallow(self.value(m, fn, f.value, env, depth + 1))
+        sm = _self_method_call(c)
+        if sm and self.st is not None:
+            callee = self.st.method(sm)
+            if callee is None:
+                return {("fresh",)}  # self.<attribute>(...): a stored class / factory, e.g. self.state_type()
+            return self.result(self.st.m, callee, c, m, fn, env, depth, method=True)
+        if isinstance(f, ast.Attribute) and f.attr in CONTAINER_READS:
+            return self._outlives(self.value(m, fn, f.value, env, depth + 1), f"`{ast.unparse(c)[:60]}` reads a container that outlives the call ({m.rel}:{c.lineno})")
+        return self._callee(m, fn, f, c, env, depth)
+
+    def _callee(self, m: Module, fn: ast.AST, f: ast.AST, c: ast.Call, env: dict[str, set], depth: int) -> set[tuple]:
+        """Result of calling the callable `f` denotes."""
+        if depth > 7:
+            return {("unknown", "depth")}
+        if isinstance(f, ast.Call):
+            if _memoiser(self.repo, m, f.func):
+                return {("shared", f"`{ast.unparse(f)[:60]}` is a memoised callable ({m.rel}:{f.lineno}): equal arguments give the same object")}
+            return {("fresh",)}
+        if isinstance(f, ast.Name) and fn is not None:
+            if f.id in _all_params(fn):
+                return {("fresh",)}  # calling the caller's argument: the state class / a factory (trusted: constructors return new objects)
+            vals = _local_values(fn, f.id)
+            if vals is None:
+                return {("unknown", f"callable {f.id} is bound by a loop / with")}
+            if vals:
+                out: set[tuple] = set()
+                for v in vals:
+                    out |= self._callee(m, fn, v, c, env, depth + 1)
+                return out
+        nm = dotted(f)
+        if nm:
+            ref = self.repo.resolve_dotted(m, nm)
+            if ":" in ref:
+                modname, _, qual = ref.partition(":")
+                mod = m if modname == m.name else self.repo.modules.get(modname)
+                if mod is not None and qual in mod.functions and "." not in qual:
+                    return self.result(mod, mod.functions[qual], c, m, fn, env, depth, method=False)
+                if mod is not None and qual in mod.classes:
+                    return {("fresh",)}
+            if isinstance(f, ast.Name):
+                binds = _module_bindings(m, f.id)
+                if binds:
+                    out = set()
+                    for v in binds:
+                        if isinstance(v, ast.Call) and _memoiser(self.repo, m, v.func):
+                            out |= {("shared", f"`{f.id} = {ast.unparse(v)[:60]}` is a memoised callable ({m.rel}:{v.lineno}): equal arguments give the same object")}
+                        elif isinstance(v, (ast.Name, ast.Attribute)):
+                            out |= self._callee(m, None, v, c, env, depth + 1)
+                        else:
+                            out |= {("unknown", f"callable `{f.id} = {ast.unparse(v)[:40]}`")}
+                    return out
+            elif isinstance(f.value if isinstance(f, ast.Attribute) else None, ast.Name) and _module_bindings(m, f.value.id):  # type: ignore[union-attr]
+                return {("unknown", f"method `{nm}` of a module-level object")}
+        return {("fresh",)}  # external call / constructor / classmethod of the state class (trusted to return a new object)
+
+    def result(self, cm: Module, callee: ast.AST, call: ast.Call | None, m: Module, fn: ast.AST | None, env: dict[str, set], depth: int, method: bool) -> set[tuple]:
+        """Tags of what a call of the repo function `callee` returns (arguments bound from `call`; None = analysed on its own)."""
+        memo, opaque = self.wrapped(cm, callee)
+        if memo:
+            return {("shared", f"{callee.name} is memoised by {memo[0][0]} ({cm.rel}:{memo[0][1].lineno}): every call with equal arguments returns the same object")}
+        if opaque:
+            return {("unknown", opaque[0])}
+        if any(isinstance(n, (ast.Yield, ast.YieldFrom)) for n in walk_shallow(callee)):
+            return {("unknown", f"generator {callee.name}")}
+        ps = [x.arg for x in callee.args.posonlyargs + callee.args.args]
+        if method and ps and ps[0] in ("self", "cls"):
+            ps = ps[1:]
+        inner: dict[str, set] = {}
+        if call is not None:
+            names = ps + [x.arg for x in callee.args.kwonlyargs]
+            b = _bind_args(call, names)
+            if b is None:
+                return {("unknown", f"arguments of `{ast.unparse(call)[:50]}`")}
+            inner = {names[i]: self.value(m, fn, a, env, depth + 1) for i, a in b.items() if i < len(names)}
+        rets = _returns(callee)
+        if not rets:
+            return {("fresh",)}
+        out: set[tuple] = set()
+        for r in rets:
+            out |= self.value(cm, callee, r.value, inner, depth + 1)
+        return out
+
+
+def _r5_verdict(tags: set[tuple], where: str, allow_arg: bool = False) -> tuple[bool, str]:
+    """(every possible origin is an object created by this call, reason).  Unknown provenance -> AnchorError."""
+    bad = []
+    for t in sorted(tags, key=str):
+        sh = False
+        while t[0] == "shallow":
+            sh, t = True, t[1]
+        if t[0] == "unknown" or (t[0] == "arg" and not allow_arg):
+            raise AnchorError(f"C19.R5: cannot determine where the value {where} comes from ({t[1]})")
+        if t[0] == "shared":
+            bad.append(t[1] + ("; the shallow copy made of it still shares its nested mutable values" if sh else ""))
+        elif t[0] == "field":
+            bad.append(f"it is {'a shallow copy of ' if sh else ''}the object held in self.{t[1]}" + ("; nested mutable values stay shared" if sh else ""))
+    return not bad, "; ".join(bad)
+
+
+_R5_WHY = ("`set` / `edit_state` of InMemoryStateStore mutate the installed object in place, so values written after one clear() are still there after the next "
+           "clear() (which must reset to the type defaults), and every store cleared with the same state type shares one state object")
+
+
+def _clear_installs(fr: _Fresh, st: _Cls, fn: ast.AST, env: dict[str, set], depth: int = 0) -> list[tuple[ast.AST, ast.AST, str, set]]:
+    """(site, holder, kind, tags of the written value) for every write of the whole state reached from `fn` through
+    calls of the store's own methods, the method parameters bound to what the caller passes."""
+    out = []
+    counted = set()
+    for site, val, kind in _state_writes(st, fn):
+        counted.add(id(site))
+        out.append((site, fn, kind, fr.value(st.m, fn, val, env)))
+    if depth >= 2:
+        return out
+    for c in calls(fn):
+        sm = _self_method_call(c)
+        callee = st.method(sm) if sm else None
+        if callee is None or callee is fn or id(c) in counted or not (c.args or c.keywords) or any(isinstance(n, (ast.Yield, ast.YieldFrom)) for n in walk_shallow(callee)):
+            continue
+        ps = _params(callee)
+        b = _bind_args(c, ps)
+        if b is None:
+            raise AnchorError(f"C19.R5: cannot read the arguments of `{ast.unparse(c)[:60]}` in {st.name}.{fn.name}")
+        inner = {ps[i]: fr.value(st.m, fn, a, env) for i, a in b.items() if i < len(ps)}
+        out += _clear_installs(fr, st, callee, inner, depth + 1)
+    return out
+
+
+def _r5(chk, repo: Repo, stores: list[_Cls], mem: Module) -> None:
+    """R5: the state installed by clear() is an instance created by that very call."""
+    if "create_cleared_state" not in mem.functions:
+        raise AnchorError(f"shared helper `create_cleared_state` not found in {mem.rel}")
+    helper = mem.functions["create_cleared_state"]
+    fr = _Fresh(repo)
+    memo, opaque = fr.wrapped(mem, helper)
+    if opaque and not memo:
+        raise AnchorError(f"C19.R5: {opaque[0]}: cannot decide whether each call runs the body")
+    chk.ob("C19.R5", "create_cleared_state runs its body on every call (no memoising decorator, no memoising re-binding of its name)", not memo, m=mem,
+           node=memo[0][1] if memo else helper, fn=helper, instance="create_cleared_state:runs-per-call",
+           reason=(f"create_cleared_state is memoised by {memo[0][0] if memo else ''}: every clear() of a state type gets the SAME default instance; " + _R5_WHY))
+    nret = 0
+    for r in _returns(helper):
+        nret += 1
+        ok, why = _r5_verdict(fr.value(mem, helper, r.value, {}), f"returned by create_cleared_state (`{ast.unparse(r.value)[:50]}`)")
+        chk.ob("C19.R5", f"create_cleared_state returns an object created by this call (`{ast.unparse(r.value)[:60]}`)", ok, m=mem, node=r, fn=helper,
+               instance="create_cleared_state:return-fresh", reason=f"the returned default instance outlives the call: {why}; " + _R5_WHY)
+    chk.floor("C19.R5", "return statements of create_cleared_state classified (fresh / shared)", nret, 1)
+
+    nsites = nkept = 0
+    for st in stores:
+        fn = st.method("clear")
+        if fn is None:
+            nsites += 1  # missing protocol method: reported by R1a
+            continue
+        ins = _clear_installs(_Fresh(repo, st), st, fn, {})
+        if not ins:
+            raise AnchorError(f"C19.R5: cannot see what {st.name}.clear installs as the state")
+        for site, holder, kind, tags in ins:
+            nsites += 1
+            if not kind.startswith("assign "):
+                chk.observe(f"C19.R5: {st.name}.clear hands the cleared state to {kind} in {holder.name}, which serialises it; the object itself is not kept by the store")
+                continue
+            nkept += 1
+            ok, why = _r5_verdict(tags, f"{st.name}.clear installs ({kind} in {holder.name})")
+            chk.ob("C19.R5", f"{st.name}.clear installs ({kind} in {holder.name}) an object created by this clear(): nothing else holds the store's live state", ok,
+                   m=st.m, node=site, fn=holder, instance=f"{st.name}.clear:installs-fresh:{kind.split()[-1]}",
+                   reason=f"the object that becomes the live state after clear() is not created by this call: {why}; " + _R5_WHY)
+    chk.floor("C19.R5", "state writes reached from clear() of both stores (through set_state)", nsites, 2)
+    chk.floor("C19.R5", "objects clear() installs as the live in-memory state (InMemoryStateStore._state <- merge_state <- create_cleared_state) classified", nkept, 1)
+
+    # planted positives / negatives (fixture parsed with ast, never imported)
+    if not R5_FIXTURE.is_file():
+        raise AnchorError(f"C19.R5: fixture {R5_FIXTURE} missing")
+    from ..index import _set_parents
+
+    src = R5_FIXTURE.read_text(encoding="utf-8")
+    tree = ast.parse(src)
+    _set_parents(tree)
+    fm = Module("fixtures.c19.planted_clear", R5_FIXTURE, "fixtures/c19/planted_clear.py", src, tree)
+    repo._collect(fm)
+    planted = clean = 0
+    for f in tree.body:
+        if isinstance(f, FuncNode) and (f.name.startswith("planted_") or f.name.startswith("clean_")):
+            tags = fr.result(fm, f, None, fm, None, {}, 0, method=False)
+            ok, _why = _r5_verdict(tags, f"returned by {f.name} (fixture)")
+            planted += f.name.startswith("planted_") and not ok
+            clean += f.name.startswith("clean_") and ok
+    chk.floor("C19.R5", "planted memoised / singleton / default-argument cleared-state helpers reported on fixtures/c19/planted_clear.py", planted, 10)
+    chk.floor("C19.R5", "clean cleared-state helpers of fixtures/c19/planted_clear.py accepted", clean, 5)
+
+
 def run(chk) -> None:
     repo: Repo = chk.repo
     mem = repo.module(MEM)
@@ -1172,6 +1582,9 @@ def run(chk) -> None:
 
     # ---------------------------------------------------------------- R4: the parent-type merge reads full dumps of both states
     _r4(chk, repo)
+
+    # ---------------------------------------------------------------- R5: clear() installs an instance created by that call
+    _r5(chk, repo, stores, mem)
     chk.observe("C19: value-level equality with a nested-dict model over operation sequences is not decided; R1 reduces it to both stores calling the "
                 "same four helpers with the same argument roles and to set_state never writing an unmerged value.")
 
@@ -1210,6 +1623,11 @@ _SQL_SET_NOW = "        async with self.edit_state() as state:\n            set_
 _HOOK_COPY = "        if not deep:\n            # pydantic's shallow copy shares private attribute values; the dynamic\n            # fields live in `_data`, so give the copy its own top-level dict.\n            copied._data = dict(self._data)\n"
 
 _MERGE_NOW = "        parent_data = incoming.model_dump()\n        return current_type.model_validate(\n            {**current_state.model_dump(), **parent_data}\n        )\n"
+
+_CLR_DEF = "def create_cleared_state(state_type: type[MODEL_T]) -> MODEL_T:"
+_CLR_EXC = "    except ValidationError:\n        raise ValueError(\"State must have defaults for all fields\")\n"
+_CLR_TAIL = "        return state_type()\n" + _CLR_EXC
+_MEM_CLEAR = "        await self.set_state(create_cleared_state(self._state.__class__))"
 
 TWINS = [
     # ---- R1 breaking
@@ -1311,4 +1729,31 @@ TWINS = [
     Twin("benign: filters spelled out as off, python mode", _PM, "parent_data = incoming.model_dump()", 'parent_data = incoming.model_dump(mode="python", exclude_unset=False, exclude=None)', None),
     Twin("benign: merged mapping through a local and the | operator, guard-style branches", _PM, _MERGE_NOW,
          "        stored_data = current_state.model_dump()\n        merged_data = stored_data | incoming.model_dump()\n        return current_type.model_validate(merged_data)\n", None),
+    # ---- R5 the state installed by clear() is created by that call
+    Twin("seed: create_cleared_state wrapped in functools.lru_cache", _PM, _CLR_DEF, "@functools.lru_cache(maxsize=None)\n" + _CLR_DEF, "C19.R5"),
+    Twin("create_cleared_state wrapped in functools.cache", _PM, _CLR_DEF, "@functools.cache\n" + _CLR_DEF, "C19.R5"),
+    Twin("create_cleared_state re-bound to a memoised wrapper after its definition", _PM, _CLR_TAIL,
+         _CLR_TAIL + "\n\ncreate_cleared_state = functools.lru_cache(maxsize=None)(create_cleared_state)\n", "C19.R5"),
+    Twin("create_cleared_state memoises the default instance in a module-level dict", _PM, _CLR_TAIL,
+         "        if state_type not in _CLEARED_DEFAULTS:\n            _CLEARED_DEFAULTS[state_type] = state_type()\n        return _CLEARED_DEFAULTS[state_type]\n"
+         + _CLR_EXC + "\n\n_CLEARED_DEFAULTS: dict[type, Any] = {}\n", "C19.R5"),
+    Twin("create_cleared_state memoises in a mutable default argument", _PM, *multi(_PM, [
+        (_CLR_DEF, "def create_cleared_state(\n    state_type: type[MODEL_T], _defaults: dict[type, Any] = {}\n) -> MODEL_T:"),
+        (_CLR_TAIL, "        return _defaults.setdefault(state_type, state_type())\n" + _CLR_EXC)]), "C19.R5"),
+    Twin("create_cleared_state hands out a shallow copy of a memoised prototype (nested defaults shared)", _PM, _CLR_TAIL,
+         "        return _default_instance(state_type).model_copy()\n" + _CLR_EXC
+         + "\n\n@functools.lru_cache(maxsize=None)\ndef _default_instance(state_type: type[MODEL_T]) -> MODEL_T:\n    return state_type()\n", "C19.R5"),
+    Twin("memory clear memoises the cleared instance in a field of the store and re-installs it", _PM, _MEM_CLEAR,
+         "        if getattr(self, \"_cleared\", None) is None:\n            self._cleared = create_cleared_state(self._state.__class__)\n        await self.set_state(self._cleared)", "C19.R5"),
+    Twin("benign: create_cleared_state returns through a local", _PM, _CLR_TAIL, "        cleared = state_type()\n        return cleared\n" + _CLR_EXC, None),
+    Twin("benign: create_cleared_state deep-copies a memoised prototype", _PM, _CLR_TAIL,
+         "        return _default_instance(state_type).model_copy(deep=True)\n" + _CLR_EXC
+         + "\n\n@functools.lru_cache(maxsize=None)\ndef _default_instance(state_type: type[MODEL_T]) -> MODEL_T:\n    return state_type()\n", None),
+    Twin("benign: create_cleared_state instantiates through an extracted private helper", _PM, _CLR_TAIL,
+         "        return _instantiate_defaults(state_type)\n" + _CLR_EXC
+         + "\n\ndef _instantiate_defaults(state_type: type[MODEL_T]) -> MODEL_T:\n    return state_type()\n", None),
+    Twin("benign: memory clear assigns the cleared instance under the lock", _PM, _MEM_CLEAR,
+         "        cleared = create_cleared_state(type(self._state))\n        async with self._lock:\n            self._state = cleared", None),
+    Twin("benign: sqlite clear through a local", _PS, "        await self.set_state(create_cleared_state(self.state_type))",
+         "        cleared_state = create_cleared_state(self.state_type)\n        await self.set_state(cleared_state)", None),
 ]
